@@ -15,13 +15,15 @@ CONSTANTS
   EnJRot = FALSE
   EnViews = FALSE
   EnCompact = TRUE
+  EnPersist = FALSE
   EnRemove = TRUE
   FilterNames = {}
-  FixCovered = FALSE
+  FixCovered = TRUE
   FixSeqno = TRUE
   FixIdSeed = TRUE
   FixMetaSeqno = TRUE
+  FixTrkZero = TRUE
 VIEW View
 CONSTRAINT Bounded
-INVARIANTS PointEqScan ViewEqRef SeqnoAboveEntries SeqnoAboveJournal VisibleLeSeqno JournalsConsistent NothingNeededEvicted RecoveryNeverPanics
+INVARIANTS PointEqScan ViewEqRef SeqnoAboveEntries SeqnoAboveJournal VisibleLeSeqno JournalsConsistent CrashSafe RecoveryNeverPanics
 CHECK_DEADLOCK FALSE
